@@ -146,7 +146,7 @@ Fixpoint monotone (last : Z) (l : list (op * oobs)) : bool :=
     end
   end.
 
-Definition check_allow (c : config) (t0 : Z) (mono : bool) (a : acc)
+Definition check_allow (excl : bool) (c : config) (t0 : Z) (mono : bool) (a : acc)
            (now c1 c2 : Z) (shed : bool) (fl am ae : Z) : bool :=
   let th := cthreshold c in
   let raw := ref_raw c (ref_peak_min c t0 now (apass a)) in
@@ -162,21 +162,22 @@ Definition check_allow (c : config) (t0 : Z) (mono : bool) (a : acc)
          ((if ref_exact c raw then q_ltb lb fb else q_ltb lb (fb * slack)%Q)
           && q_ltb lb (aavg a * slack)%Q))
    else true)
-  (* shed when saturated *)
+  (* shed when saturated; [excl]: with the hypothesis that excludes the NaN corner
+     cpuThreshold = cpuMax = CPU reading (known finding nan-factor-threshold-eq-cpumax) *)
   && (if mono && over && q_ltb (cap * slack)%Q fb && q_ltb (cap * slack)%Q (aavg a)
-         && negb ((th =? cpuMax) && (c2 =? cpuMax))
+         && negb (excl && (th =? cpuMax) && (c2 =? cpuMax))
       then shed else true)
   (* conservation *)
   && (fl =? (if shed then afl a else afl a + 1)).
 
-Fixpoint prop_loop (c : config) (t0 : Z) (mono : bool) (a : acc) (l : list (op * oobs)) : bool :=
+Fixpoint prop_loop (excl : bool) (c : config) (t0 : Z) (mono : bool) (a : acc) (l : list (op * oobs)) : bool :=
   match l with
   | [] => true
   | (o, ob) :: l' =>
     match o, ob with
     | OAllow now c1 c2, OA shed fl _ _ am ae =>
-      check_allow c t0 mono a now c1 c2 shed fl am ae
-      && prop_loop c t0 mono
+      check_allow excl c t0 mono a now c1 c2 shed fl am ae
+      && prop_loop excl c t0 mono
            (mkAcc (aidx a + 1)
                   (if shed then aadm a else (aidx a, now) :: aadm a)
                   (apass a)
@@ -188,7 +189,7 @@ Fixpoint prop_loop (c : config) (t0 : Z) (mono : bool) (a : acc) (l : list (op *
       let ok := match st with Some _ => done | None => negb done end in
       let fl' := if done then afl a - 1 else afl a in
       ok && (fl =? fl')
-      && prop_loop c t0 mono
+      && prop_loop excl c t0 mono
            (mkAcc (aidx a + 1) (aadm a)
                   (match st with
                    | Some start => if done then (grid t0 (bucket_duration c) now, ceil_ms (now - start)) :: apass a else apass a
@@ -199,7 +200,7 @@ Fixpoint prop_loop (c : config) (t0 : Z) (mono : bool) (a : acc) (l : list (op *
       let ok := match st with Some _ => done | None => negb done end in
       let fl' := if done then afl a - 1 else afl a in
       ok && (fl =? fl')
-      && prop_loop c t0 mono
+      && prop_loop excl c t0 mono
            (mkAcc (aidx a + 1) (aadm a) (apass a) fl' (aovers a) (ashed a) (dyadic am ae) (alast a)) l'
     | _, _ => false
     end
@@ -208,13 +209,19 @@ Fixpoint prop_loop (c : config) (t0 : Z) (mono : bool) (a : acc) (l : list (op *
 Definition never_shed (l : list (op * oobs)) : bool :=
   forallb (fun x => match snd x with OA shed _ _ _ _ _ => negb shed | _ => true end) l.
 
-Definition prop_ok (c : case) : bool :=
+Definition prop_gen (excl : bool) (c : case) : bool :=
   if cnop c then never_shed (cops c)
   else if cenabled (ccfg c) then
     csame c
-    && prop_loop (ccfg c) (ct0 c) (monotone (ct0 c) (cops c))
+    && prop_loop excl (ccfg c) (ct0 c) (monotone (ct0 c) (cops c))
                  (mkAcc 0 [] [] 0 [] false 0%Q (ct0 c)) (cops c)
   else false.   (* disabled, yet an adaptive shedder was built *)
+
+(* the property at full strength (every configuration) *)
+Definition prop_ok (c : case) : bool := prop_gen false c.
+(* the property with shed_when_saturated's excluding hypothesis (Props.shed_when_saturated);
+   used only to recognise the known finding: prop_ok fails, prop_ok_excl holds *)
+Definition prop_ok_excl (c : case) : bool := prop_gen true c.
 
 (* diagnostics: the model's own run *)
 Fixpoint model_loop (s : state) (ops : list op) : list (res * Z * Z * Z) :=
